@@ -119,6 +119,7 @@ def main():
                     d, idx, first = net.find_duplicate_reaction(op.get("mode"))
                     net.remove_reaction(idx)
                 elif k == "export":
+                    os.makedirs(op.get("prefix", "./"), exist_ok=True)
                     net.export(op["name"], solver=op.get("solver", "cvode"), method=op.get("method", "dense"), prefix=op.get("prefix", "./"), overwrite=True)
                 elif k == "exec":
                     exec(op["code"], {"net": net, "Network": Network, "Reaction": Reaction, "ReactionType": ReactionType, "Species": Species})
